@@ -10,7 +10,7 @@ EXPLANATION = (
     "same-tick dependency graph is acyclic, i.e. the partitioner's acceptance criterion; Tick::cycle-only flows are "
     "always guarded; every operator the emitter writes, and every node of every emitted graph, respects the input arity ranges of the operator table "
     "regenerated from /repo on every run. The property's full statement is REFUTED on the model and on the code "
-    "(two known findings, re-derived each run). Tie: for each corpus flow (typed API, rustc-checked) the IR, the flat "
+    "(three known findings, re-derived each run; the third -- a run-time panic of generated code -- is found by driving, not modelled). Tie: for each corpus flow (typed API, rustc-checked) the IR, the flat "
     "graph emitted by the real emit(), FlatGraphBuilder::build and the real partition_graph verdict are compared with "
     "the model's emit (exact node order, edge multiset, delay flags, arities, predicted verdict), engine Partition's executable model of the partitioner accepts the emitted graph of every guarded flow (theorem, from Partition's C19_acyclic_accepted) and is also run per flow against the real verdict; generated code of "
     "every accepted flow is compiled by rustc into the harness and driven on random tick scripts. Not a proof of: the "
